@@ -24,7 +24,7 @@ Fixpoint guard_par (G : list trafo) (cm : chan -> chan) (p : pt) : bool :=
   | PAtom _ _ _ _ => true
   | PSeq _ _ subs => forallb (guard_par G cm) subs
   | PRep _ _ _ b => guard_par G cm b
-  | PMap _ ren s => guard_par G (fun c => cm (ren_get ren c)) s
+  | PMap _ ren _ s => guard_par G (fun c => cm (ren_get ren c)) s
   | PPar _ ov s => chain_avoids G (par_keys cm ov) && guard_par G cm s
   | PArith _ _ _ _ s => guard_par G cm s
   | PRev _ s => guard_par G cm s
@@ -36,7 +36,7 @@ Fixpoint none_below (S : list N) (p : pt) : bool :=
   match p with
   | PAtom _ _ _ _ => true
   | PSeq _ _ subs => forallb (fun s => negb (in_S S (pid s)) && none_below S s) subs
-  | PRep _ _ _ s | PMap _ _ s | PPar _ _ s | PArith _ _ _ _ s | PRev _ s => negb (in_S S (pid s)) && none_below S s
+  | PRep _ _ _ s | PMap _ _ _ s | PPar _ _ s | PArith _ _ _ _ s | PRev _ s => negb (in_S S (pid s)) && none_below S s
   end.
 
 (* guard for the single-waveform theorem, following the compilation: X is the transformation that arrives at p.
@@ -51,7 +51,7 @@ Fixpoint guard_int (S : list N) (cm : chan -> chan) (X : list trafo) (p : pt) : 
   | PAtom _ _ _ _ => true
   | PSeq _ _ subs => forallb (child cm X) subs
   | PRep _ _ _ b => child cm X b
-  | PMap _ ren s => child (fun c => cm (ren_get ren c)) X s
+  | PMap _ ren _ s => child (fun c => cm (ren_get ren c)) X s
   | PPar _ ov s => child cm (X ++ [TParallel (map (fun cv => (cm (fst cv), snd cv)) ov)]) s
   | PArith _ op l sc s => child cm (arith_steps op l sc (pt_chans s) cm ++ X) s
   | PRev _ s => none_below S s
